@@ -151,6 +151,25 @@ Additions for synergy.py / data.py / models/main.py (calculate_synergy, create_s
                       declared numeric type (exact rationals for floats); an operator that is not declared is refused
   cfg["float_consts"] {repr of a float literal: (Gallina term, type)}: the only float literals accepted
   `a[i, j] = v`       a : list (list T) with cfg["index_error"] = tag: PyRt.list_set2 (both indices wrap once, IndexError outside)
+Additions for models/sparse_combo.py (the Gibbs blocks of LegacySparseDrugComboImpl, C08 links):
+  cfg["assign_effects"]  a pattern may also be an AUGMENTED assignment statement (`self.Mu[__i] += __v`, numpy's in-place
+                      fancy-index update): the statement must match the pattern's target, operator and value
+  `x.attr op= e`      x a bound variable of the owner type of the declared field `attr` (cfg["fields"]): `x.attr = x.attr op e`,
+                      where `x.attr op e` is translated like the written binary expression (so through the typed operator
+                      prims; numpy's in-place operator has the value of the out-of-place one; aliasing is not modelled)
+  bare `return`       in a function with cfg["implicit_return"] (a method that mutates self and returns None): the function
+                      ends with the implicit return value of the state at that point.  Without cfg["implicit_return"]
+                      it stays `return None`.
+  cfg["try_prims"]    [(source text of the ONE statement that may raise, with holes; variable; Gallina template; type;
+                      {hole: type}; Gallina pattern of a successful answer; its type)]:
+                      `try: S1; S2 ... except: B` (a bare `except:` or `except Exception:`, no else / finally) whose FIRST
+                      statement S1 matches the text (its right-hand side is the declared primitive - the only statement of the
+                      try body that the configuration says may raise) is
+                          bind a <- template; match a with <success pattern binding the variable> => [S1 with its right-hand
+                          side replaced by the variable]; S2 ... ; rest | _ => B; rest end
+                      i.e. the primitive's answer says whether it raised (the model's VFail answer of an MVN draw).  The
+                      configuration TRUSTS that no other statement of the try body raises.  Any other try statement, a handler
+                      that binds the exception or re-raises, and jumps inside either part are refused.
 """
 import ast
 
@@ -711,6 +730,13 @@ class Tr:
                         raise Unsupported("assignment target: " + ast.unparse(st))
             elif isinstance(st, ast.AnnAssign) and isinstance(st.target, ast.Name) and st.value is not None:
                 add(st.target.id)
+            elif isinstance(st, ast.AugAssign) and any(self.unify(patn, st, {}) for patn, _v, _t in self.assign_effects):
+                for patn, var, _t in self.assign_effects:     # an augmented store declared as an effect on a state variable
+                    if self.unify(patn, st, {}):
+                        add(var)
+                        break
+            elif isinstance(st, ast.AugAssign) and self.field_target(st.target) is not None:
+                add(self.field_target(st.target))      # x.attr op= e rebinds x
             elif isinstance(st, ast.AugAssign):
                 if isinstance(st.target, ast.Name):
                     add(st.target.id)
@@ -944,6 +970,20 @@ class Tr:
                 env2[n] = t
             return self.bind_hoist(hoist, "%slet %s := %s in\n" % (ind, tuple_pat(names), v), ind) + self.block(rest, env2, k, ind)
         if isinstance(st, ast.AugAssign):
+            for patn, var, tmpl in self.assign_effects:      # an augmented store declared as an effect (cfg["assign_effects"])
+                binds = {}
+                if self.unify(patn, st, binds):
+                    if var not in env or env[var] == ("unit",):
+                        raise Unsupported("assignment effect on an unbound state variable: " + var)
+                    args = {kk[2:]: self.expr(v, env, hoist)[0] for kk, v in binds.items()}
+                    args["state"] = var
+                    if tmpl.startswith("!"):
+                        return self.bind_hoist(hoist, "%s%s %s <- %s;\n" % (ind, self.M["bind"], var, tmpl[1:].format(**args)), ind) + self.block(rest, env, k, ind)
+                    return self.bind_hoist(hoist, "%slet %s := %s in\n" % (ind, var, tmpl.format(**args)), ind) + self.block(rest, env, k, ind)
+            if self.field_target(st.target) is not None:      # x.attr op= e  is  x.attr = x.attr op e
+                load = ast.Attribute(value=ast.Name(id=st.target.value.id, ctx=ast.Load()), attr=st.target.attr, ctx=ast.Load())
+                return self.field_store(st.target.value.id, st.target.attr, ast.BinOp(left=load, op=st.op, right=st.value), False,
+                                        env, hoist, rest, k, ind)
             if isinstance(st.target, ast.Name):
                 n = st.target.id
                 if n not in env or env[n] == ("unit",):
@@ -991,6 +1031,8 @@ class Tr:
             return k(env, jump="break")
         if isinstance(st, ast.While):
             return self.while_loop(st, rest, env, k, ind)
+        if isinstance(st, ast.Return) and st.value is None and self.cfg.get("implicit_return") is not None:
+            return k(env, jump=("return_implicit",))     # a bare `return` of a method that denotes its final state
         if isinstance(st, ast.Return):
             if st.value is None:
                 st = ast.Return(value=ast.Constant(value=None))     # `return` is `return None`
@@ -1419,7 +1461,7 @@ class Tr:
                 return "%s  %s (%s)\n" % (ind, self.M["ok"], ", ".join([jump[1]] + self.return_state))
             if isinstance(jump, tuple) and jump[0] == "return":
                 return "%s  %s %s\n" % (ind, self.M["ok"], jump[1])
-            if jump is None and cfg.get("implicit_return") is not None:
+            if (jump is None or jump == ("return_implicit",)) and cfg.get("implicit_return") is not None:
                 return "%s  %s %s\n" % (ind, self.M["ok"], cfg["implicit_return"].format(**{v[:-len(SUFFIX)]: v for v in env2 if v.endswith(SUFFIX)}))
             raise Unsupported("function may end without a return" if jump is None else "continue outside a loop")
 
